@@ -62,6 +62,7 @@ func (r *verifRecorder) OnCompleted(ctx *base.EntryContext) {
 }
 
 type verifLive struct {
+	inbound   bool
 	uncounted bool // passed after a prepare-slot panic: the statistic slots never saw it
 	e         *base.SentinelEntry
 	res       int
@@ -85,8 +86,8 @@ func VerifC01() {
 	sc.AddRuleCheckSlot(rule)
 	sc.AddStatSlot(stat.DefaultSlot)
 	sc.AddStatSlot(rec)
-	names := []string{"A", "B"} // A is entered as inbound traffic, B as outbound
-	types := []base.TrafficType{base.Inbound, base.Outbound}
+	names := []string{"A", "B"}
+	types := []base.TrafficType{base.Inbound, base.Outbound} // chosen per entry, independently of the resource
 	var es []*verifLive
 	var reqSum, passSum, blockSum, compSum, errSum, gauge [2]int64
 	var inPass, inBlock, inComp, inErr, inGauge int64
@@ -100,6 +101,8 @@ func VerifC01() {
 		switch op {
 		case 0: // Entry
 			r := rt.Choice(2)
+			tt := rt.Choice(2)
+			inbound := tt == 0
 			b := rt.U32n("batch", 10)
 			rule.mode = rt.Choice(modes)
 			prep.boom = false
@@ -107,7 +110,7 @@ func VerifC01() {
 				prep.boom, prepPanics = true, true
 			}
 			p0, b0, c0 := rec.passed, rec.blocked, rec.completed
-			e, blk := Entry(names[r], WithSlotChain(sc), WithBatchCount(b), WithTrafficType(types[r]))
+			e, blk := Entry(names[r], WithSlotChain(sc), WithBatchCount(b), WithTrafficType(types[tt]))
 			rt.Reach("c01.entry")
 			rt.Assert((e != nil) != (blk != nil), "every Entry yields exactly one of an entry and a block error")
 			rt.Assert((e != nil) == (rule.mode != 2), "blocked iff a rule-check slot blocked; a panicking rule check passes the request")
@@ -115,16 +118,16 @@ func VerifC01() {
 			if e != nil && prep.boom {
 				// pinned upstream behaviour (TestSlotChain_Entry_With_Panic): nothing is recorded
 				rt.Assert(rec.passed == p0 && rec.blocked == b0, "after a prepare-slot panic the statistic slots are not told an outcome")
-				es = append(es, &verifLive{e: e, res: r, batch: b, uncounted: true, err: e.Context().Err()})
+				es = append(es, &verifLive{e: e, res: r, batch: b, inbound: inbound, uncounted: true, err: e.Context().Err()})
 			} else if e != nil {
 				rt.Assert(rec.passed == p0+1 && rec.blocked == b0 && rec.lastRes == names[r] && rec.lastBatch == b, "a passed entry is recorded as passed exactly once, on its resource with its batch")
 				passSum[r] += int64(b)
 				gauge[r]++
-				if r == 0 {
+				if inbound {
 					inPass += int64(b)
 					inGauge++
 				}
-				l := &verifLive{e: e, res: r, batch: b}
+				l := &verifLive{e: e, res: r, batch: b, inbound: inbound}
 				if rule.mode == 3 {
 					l.err = e.Context().Err() // the internal panic is recorded as the entry's error (upstream design)
 					rt.Assert(l.err != nil, "an internal panic is recorded on the entry")
@@ -133,7 +136,7 @@ func VerifC01() {
 			} else {
 				rt.Assert(rec.blocked == b0+1 && rec.passed == p0 && rec.lastRes == names[r] && rec.lastBatch == b, "a blocked entry is recorded as blocked exactly once, on its resource with its batch")
 				blockSum[r] += int64(b)
-				if r == 0 {
+				if inbound {
 					inBlock += int64(b)
 				}
 			}
@@ -167,7 +170,7 @@ func VerifC01() {
 				if l.err != nil {
 					errSum[l.res] += int64(l.batch)
 				}
-				if l.res == 0 {
+				if l.inbound {
 					inComp += int64(l.batch)
 					inGauge--
 					if l.err != nil {
